@@ -32,7 +32,7 @@ def gen(rng, n):
         s = R.gen_program(rng, below_start=True, at_start=True)
         log = R.unlimited(s)
         s.calls = R.gen_calls(rng, log, s.start)
-        yield s.encode()
+        yield R.add_concurrent_build(rng, s, 0.04).encode()
 
 
 def exhaustive():
